@@ -61,7 +61,7 @@ Clause(v) ==
        ELSE IF Len(got) < Len(want.tx) THEN <<"C13.AckOnce", "the delivering hop sent no NETWORK_ACK to the origin">>
        ELSE IF Len(got) > Len(want.tx) THEN <<"C13.AckOnce", "more than one NETWORK_ACK sent">>
        ELSE <<"C13.AckOnce", "the NETWORK_ACK differs from the specified one (header, route or message)">>
-  ELSE IF h.to = McastAddr /\ h.type # TPoll THEN
+  ELSE IF h.to = McastAddr /\ h.type # TPoll /\ user THEN
        IF (v.queued = 1) # want.queued THEN <<"C14.RelayOnce", "a received multicast frame was not queued for the node's own application">>
        ELSE IF got # want.tx THEN <<"C14.RelayOnce", "re-broadcast " \o ToString(Len(got)) \o " frame(s); specified: " \o ToString(Len(want.tx)) \o " to the next level, unchanged, unacknowledged">>
        ELSE IF v.ret # want.ret THEN <<"drift", "update() returned " \o ToString(v.ret) \o " for a multicast frame">>
